@@ -25,6 +25,10 @@ pub const COMBOS: &[[u8; 4]] = &[
     [1, 0, 0, 2],
     [0, 0, 2, 2],
     [2, 1, 1, 1],
+    // 3 = violated on a line shared with another violated rule: the sort and the pattern
+    // diagnostics then start at the same position.
+    [3, 0, 3, 0],
+    [3, 1, 3, 2],
 ];
 pub const SEVERITIES: &[(&str, u64)] = &[("", 1), ("error", 1), ("warning", 2), ("info", 3), ("hint", 4), ("WARNING", 2), ("Hint", 4)];
 pub const CODES: [&str; 4] = ["keep-sorted", "keep-unique", "line-pattern", "line-count"];
@@ -72,7 +76,13 @@ pub fn build(blocks: &[BlockSpec]) -> (Vec<(String, String)>, Expected) {
         }
         // Content: sorted unless the sort rule is to be violated; a duplicate iff uniqueness is to
         // be violated; a line with `!` iff the pattern is to be violated.
-        let mut content: Vec<String> = if combo[0] == 2 { vec!["b1 = 1".into(), "a1 = 1".into()] } else { vec!["a1 = 1".into(), "b1 = 1".into()] };
+        let mut content: Vec<String> = if combo[0] == 3 {
+            vec!["b1 = 1".into(), "a1 = 1!".into()]
+        } else if combo[0] == 2 {
+            vec!["b1 = 1".into(), "a1 = 1".into()]
+        } else {
+            vec!["a1 = 1".into(), "b1 = 1".into()]
+        };
         if combo[1] == 2 {
             let last = content.last().unwrap().clone();
             content.push(last);
@@ -85,7 +95,7 @@ pub fn build(blocks: &[BlockSpec]) -> (Vec<(String, String)>, Expected) {
         texts[f].push_str(&format!("# <block {attrs}>\n{}\n# </block>\nfiller{i} = 0\n", content.join("\n")));
         lines[f] += content.len() + 3;
         for (r, code) in CODES.iter().enumerate() {
-            if combo[r] == 2 {
+            if combo[r] >= 2 {
                 expected.push((FILES[f].to_string(), tag_line, code.to_string(), sev));
             }
         }
@@ -223,7 +233,7 @@ pub fn run(cfg: &Cfg, sink: &Arc<Sink>) -> Report {
     let max = cfg.tier.pick(2, 3);
     report.phase(engine::explore(
         "repositories through the CLI",
-        &format!("all sequences of ≤{max} blocks over {ALPHABET} block kinds (third block: first file, 4 combinations)"),
+        &format!("all sequences of ≤{max} blocks over {ALPHABET} block kinds (second block: severities unset/warning; third block: first file, 4 combinations)"),
         Sequences16 { alphabet: ALPHABET as u16, max_len: max, check: Box::new(move |seq: &[u16], sink: &Sink| check_cli(&cfg2, seq, sink)) },
         sink,
         cfg.threads,
@@ -261,12 +271,14 @@ impl engine::Space for Sequences16 {
         }
         (0..self.alphabet)
             .filter(|&a| {
-                if state.len() < 2 {
-                    return true;
-                }
-                // Third block: first file, combos {none, all violated, sorted violated, count violated}.
                 let b = decode(a);
-                b.file == 0 && [0usize, 7, 1, 4].contains(&b.combo)
+                match state.len() {
+                    0 => true,
+                    // Second block: every combination and file, severities {unset, warning}.
+                    1 => b.severity == 0 || b.severity == 2,
+                    // Third block: first file, combos {none, all violated, sorted violated, count violated}.
+                    _ => b.file == 0 && [0usize, 7, 1, 4].contains(&b.combo) && (b.severity == 0 || b.severity == 2),
+                }
             })
             .map(|a| {
                 let mut next = state.clone();
